@@ -16,6 +16,7 @@ from typing import List, Optional
 import struct
 import socket
 import selectors
+from threading import RLock
 
 from skepticoin.humans import human
 from .params import (
@@ -183,6 +184,9 @@ class ConnectedRemotePeer(RemotePeer):
         self.receiver = MessageReceiver(self)
         self.send_backlog: List[bytes] = []
         self.send_buffer: bytes = b""
+        # send_message is also called from other threads than the one that handles socket events (the miner and the scripts
+        # broadcast blocks and transactions), so the send queue and the selector's write interest are changed under a lock.
+        self.send_lock = RLock()
 
         self.hello_sent: bool = False
         self.hello_received: bool = False
@@ -245,11 +249,12 @@ class ConnectedRemotePeer(RemotePeer):
             "%15s ConnectedRemotePeer.send_message(%s %s len=%d)"
             % (self.host, type(message).__name__, header.format(), len(data)))
 
-        self.send_backlog.append((MAGIC + struct.pack(b">I", len(data)) + data))
+        with self.send_lock:
+            self.send_backlog.append((MAGIC + struct.pack(b">I", len(data)) + data))
 
-        if len(self.send_buffer) == 0:
-            self.send_buffer = self.send_backlog.pop(0)
-            self.start_sending()
+            if len(self.send_buffer) == 0:
+                self.send_buffer = self.send_backlog.pop(0)
+                self.start_sending()
 
     def start_sending(self) -> None:
         try:
@@ -295,15 +300,16 @@ class ConnectedRemotePeer(RemotePeer):
         self.local_peer.logger.info("%15s ConnectedRemotePeer.handle_can_send(buffer=%d, backlog=%d)"
                                     % (self.host, len(self.send_buffer), len(self.send_backlog)))
 
-        sent = sock.send(self.send_buffer)
-        self.send_buffer = self.send_buffer[sent:]
+        with self.send_lock:
+            sent = sock.send(self.send_buffer)
+            self.send_buffer = self.send_buffer[sent:]
 
-        if len(self.send_buffer) == 0:
-            if len(self.send_backlog) == 0:
-                self.stop_sending()
-            else:
-                self.send_buffer = self.send_backlog.pop(0)
-                self.handle_can_send(sock)
+            if len(self.send_buffer) == 0:
+                if len(self.send_backlog) == 0:
+                    self.stop_sending()
+                else:
+                    self.send_buffer = self.send_backlog.pop(0)
+                    self.handle_can_send(sock)
 
     def handle_receive_data(self, data: bytes) -> None:
         self.local_peer.logger.info("%15s ConnectedRemotePeer.handle_receive_data(%d)" % (self.host, len(data)))
